@@ -5,21 +5,17 @@ From Falcon Require Import Base.Res IL.Const IL.Expr IL.Func IL.Loc Exec.Sem Flo
 Import ListNotations.
 Local Open Scope Z_scope.
 
-(* 1. soundness of the reported constants, and 2. of Constants::eval, on the class of the known finding's
-      complement (def_assigned: every read is definitely assigned on every path from the entry), for
+(* 1. soundness of the reported constants, and 2. of Constants::eval, on the complement of the known
+      finding's class (def_assigned: every read is definitely assigned on every path from the entry), for
       functions satisfying the CFG invariant (C15) with one width per name and well-sorted sources (c13_wf).
-      For EVERY execution of the reference semantics from the entry (any fuel, any initial state), before
-      every executed location: a scalar for which a constant is reported and which the function has
-      assigned earlier in that execution holds exactly that constant; an expression whose scalars the
-      function has all assigned and for which eval answers Some v has the value v.
-      `_partial`: relative to `exact_solution f m = true` -- each stored state is exactly the transfer of the
-      join of its predecessors' states -- which the engine guarantees only up to Constants::partial_cmp = Equal
-      (weaker: it ignores incomparable constants).  That hypothesis is an executable predicate evaluated by the
-      case files on every def_assigned case ([V]); deriving it from the run (monotonicity on def_assigned
-      functions) is open, see notes/C13.md. *)
-Theorem constants_sound_partial : forall f max m r,
+      Whenever the analysis returns Ok r, for EVERY execution of the reference semantics from the entry
+      (any fuel, any initial state), before every executed location: a scalar for which a constant is
+      reported and which the function has assigned earlier in that execution holds exactly that constant;
+      an expression whose scalars the function has all assigned and for which eval answers Some v has the
+      value v. *)
+Theorem constants_sound : forall f max r,
   cfg_inv (f_cfg f) = true -> c13_wf f = true -> def_assigned f = true ->
-  constants_states max f = Ok m -> exact_solution f m = true -> remap f m m = Ok r ->
+  constants_max max f = Ok r ->
   forall l0 st0 fuel ti asg cm s c,
     entry_loc f = Some l0 ->
     In (ti, asg) (with_assigned [] (sem_run fuel f l0 st0)) ->
@@ -27,14 +23,14 @@ Theorem constants_sound_partial : forall f max m r,
     cm_get cm s = Some (CConst c) -> key_mem (skey_of s) asg = true ->
     env_get (st_env (ti_before ti)) (skey_of s) = Some c.
 Proof.
-  intros f max m r H1 H2 H3 H4 H5 H6 l0 st0 fuel ti asg cm s c H7 H8 H9.
-  exact (proj1 (ConstantsProofs.constants_sound_partial f max m r H1 H2 H3 H4 H5 H6 l0 st0 fuel ti asg cm H7 H8 H9) s c).
+  intros f max r H1 H2 H3 H4 l0 st0 fuel ti asg cm s c H7 H8 H9.
+  exact (proj1 (ConstantsProofs.constants_sound f max r H1 H2 H3 H4 l0 st0 fuel ti asg cm H7 H8 H9) s c).
 Qed.
-Print Assumptions constants_sound_partial.
+Print Assumptions constants_sound.
 
-Theorem constants_eval_sound_partial : forall f max m r,
+Theorem constants_eval_sound : forall f max r,
   cfg_inv (f_cfg f) = true -> c13_wf f = true -> def_assigned f = true ->
-  constants_states max f = Ok m -> exact_solution f m = true -> remap f m m = Ok r ->
+  constants_max max f = Ok r ->
   forall l0 st0 fuel ti asg cm e v,
     entry_loc f = Some l0 ->
     In (ti, asg) (with_assigned [] (sem_run fuel f l0 st0)) ->
@@ -43,10 +39,38 @@ Theorem constants_eval_sound_partial : forall f max m r,
     (forall x, In x (scalars e) -> key_mem (skey_of x) asg = true) ->
     den (st_env (ti_before ti)) e = Ok v.
 Proof.
-  intros f max m r H1 H2 H3 H4 H5 H6 l0 st0 fuel ti asg cm e v H7 H8 H9.
-  exact (proj2 (ConstantsProofs.constants_sound_partial f max m r H1 H2 H3 H4 H5 H6 l0 st0 fuel ti asg cm H7 H8 H9) e v).
+  intros f max r H1 H2 H3 H4 l0 st0 fuel ti asg cm e v H7 H8 H9.
+  exact (proj2 (ConstantsProofs.constants_sound f max r H1 H2 H3 H4 l0 st0 fuel ti asg cm H7 H8 H9) e v).
 Qed.
-Print Assumptions constants_eval_sound_partial.
+Print Assumptions constants_eval_sound.
+
+(* the key lemma behind both: on def_assigned functions the engine's result is an EXACT solution of the
+   data-flow equations (each stored map equals, as a map, the transfer of the join of its predecessors'
+   maps), although the engine only compares with Constants::partial_cmp, for which {x:5} = {x:6} *)
+Theorem constants_exact : forall f max m,
+  cfg_inv (f_cfg f) = true -> srcs_wf f = true -> def_assigned f = true ->
+  constants_states max f = Ok m -> exact_solution f m = true.
+Proof. exact ConstantsProofs.constants_exact. Qed.
+Print Assumptions constants_exact.
+
+(* 3. the repaired defect, unbounded: whenever the fixed point is reached, the remap pass of constants()
+      returns a map -- no index panic and no error, whichever blocks are unreachable from the entry
+      (part of the property's completion clause; the fixed-point part of completion is open, notes/C13.md) *)
+Theorem constants_remap_total : forall f max m,
+  cfg_inv (f_cfg f) = true -> srcs_wf f = true ->
+  constants_states max f = Ok m -> exists r, remap f m m = Ok r.
+Proof. exact ConstantsProofs.constants_remap_total. Qed.
+Print Assumptions constants_remap_total.
+
+(* 4. completion, up to the engine's step budget: on a def_assigned function the analysis returns a result
+      or stops on FixedPointMaxSteps -- never FixedPointOrdering, never a panic, never another error.
+      `_partial`: the budget itself is not bounded here (C09's termination bound needs a height bound over
+      ALL states, which Constants as a type does not have; on the maps that arise the height is 2 per scalar). *)
+Theorem constants_completes_partial : forall f max,
+  cfg_inv (f_cfg f) = true -> c13_wf f = true -> def_assigned f = true ->
+  (exists r, constants_max max f = Ok r) \/ constants_max max f = Err EMaxSteps.
+Proof. exact ConstantsProofs.constants_completes_partial. Qed.
+Print Assumptions constants_completes_partial.
 
 (* the known finding kf:not-definitely-assigned:  if a == 0 { b = 5 } else { nop x4 }; c = b + 1; nop
    scalars: a = 0, b = 1, c = 2 (32 bits) *)
@@ -79,6 +103,7 @@ Example constants_sound_refuted :
    | _ => false
    end) = true.
 Proof. vm_compute. reflexivity. Qed.
+Print Assumptions constants_sound_refuted.
 
 (* the hypotheses of the theorems are satisfiable: the same shape with b initialised first *)
 Definition ok_f : func :=
